@@ -43,6 +43,7 @@ type Server struct {
 	userCommandHandler   UserCommandHandler
 	commandExecutors     Executors
 	commandMutex         sync.Mutex
+	passwdAuth           auth.Authenticator
 }
 
 // NewServer returns a new server instance.
@@ -62,6 +63,7 @@ func NewServer() *Server {
 		commandExecutors:     Executors{},
 		commandMutex:         sync.Mutex{},
 	}
+	server.passwdAuth = &requirePassAuthenticator{config: server.ServerConfig}
 	server.SetPort(DefaultPort)
 	server.registerCoreExecutors()
 	server.registerSugarExecutors()
@@ -92,11 +94,12 @@ func (server *Server) RegisterExexutor(cmd string, executor Executor) {
 
 // Start starts the server.
 func (server *Server) Start() error {
-	password, requirePass := server.ConfigRequirePass()
-	if requirePass {
-		if !server.HasClearTextPasswordAuthenticator("", password) {
-			server.AddAuthenticator(auth.NewClearTextPasswordAuthenticatorWith("", password))
-		}
+	// The requirepass parameter is checked by one authenticator that reads it
+	// when a connection authenticates: an authenticator holding the password
+	// of the moment would keep vetoing after the password has been changed,
+	// and would be missing for a password that is set later.
+	if !server.HasAuthenticator(server.passwdAuth) {
+		server.AddAuthenticator(server.passwdAuth)
 	}
 
 	err := server.ConnManager.Start()
